@@ -170,6 +170,7 @@ var propSpecs = map[string]*PropSpec{
 		Level:       "proof",
 		Explanation: "partial (the filter parameter's value and name leaves only): parsing.SQLEscape hands back, with a nil error, only text it wrote rune by rune and never writes a single quote, a double quote or a semicolon, for every input string; filterClause's leaf passes the token spelling to SQLEscape and, when that succeeds, emits the screened text itself, '<text>', the Go quoting of it, or the SQL identifier quoting of it, and nothing else",
 		TrustedBase: []string{"lexical lemma (SQL): a string literal whose body holds no quote, and a delimited identifier whose body holds no double quote, is one token whatever follows it", "strings.Builder returns what was written to it", "NOT covered: raw leaves (numbers, NULL, operators) beyond the screen for quotes and semicolons, the composition of clauses, column lists, sort lists, paging values, table names, row payloads, and that the rows selected are the ones the filter means -- the property as a whole is not decided", "a rewrite of SQLEscape that no longer goes through the builder would be reported although it might be correct (the contract follows the implementation's shape here)"},
+		Extra:       c14Extra,
 	},
 	"C15": {
 		Patterns:    []string{"./..."},
